@@ -275,9 +275,15 @@ def scan_hidden_state():
     return sites
 
 
+def _is_keys_view(n):
+    return isinstance(n, ast.Call) and isinstance(n.func, ast.Attribute) and n.func.attr in ("keys", "items") and not n.args
+
+
 def _is_set_expr(n):
     if isinstance(n, (ast.Set, ast.SetComp)):
         return True
+    if isinstance(n, ast.BinOp) and isinstance(n.op, (ast.BitAnd, ast.BitOr, ast.BitXor, ast.Sub)) and any(_is_keys_view(x) or _is_set_expr(x) for x in (n.left, n.right)):
+        return True  # algebra on dictionary views / sets yields a set (hash order)
     return isinstance(n, ast.Call) and isinstance(n.func, ast.Name) and n.func.id in ("set", "frozenset")
 
 
